@@ -265,7 +265,7 @@ def check_stmt(name, tier, acc, only=None):
 
   def drive(top, what, extra):
     outs = sorted(top.get_all_object_filter(lambda x: x.is_signal() and x.is_top_level_signal() and x.get_host_component() is top and x.is_output_value_port()), key=repr)
-    getters = [(repr(p)[2:], p._dsl.Type.nbits, eval(f"lambda s: int(s.{repr(p)[2:]})")) for p in outs]
+    getters = [(repr(p)[2:], p._dsl.Type.nbits, eval(f"lambda s: int(s.{repr(p)[2:]}" + (".to_bits())" if hasattr(p._dsl.Type, "__bitstruct_fields__") else ")"))) for p in outs]
     state = None
     n = 0
     sigs = sorted(top.get_all_object_filter(lambda x: x.is_signal()), key=repr)
